@@ -8,7 +8,7 @@ from ..model import Project, call_name, walk_local
 from ..paths import PState, run_paths, subst_text, is_benign_call
 from ..report import Report
 from . import _sendmsg
-from .c01 import id_literal, no_method, not_list
+from .c01 import id_literal, no_method, not_list, skipped_messages
 
 
 def check(P: Project, R: Report) -> None:
@@ -67,6 +67,14 @@ def check(P: Project, R: Report) -> None:
              sample=f"R2 path receive→next iteration with {sorted(l[:50] for l in st.lits if m in l)} hands on: {handed or 'nothing'}")
     r1_ok = all(o.ok for o in R.obligations if o.rule == "R1")
     R.need(n_foreign >= 1 or not r1_ok, "anchor: no foreign-id path found in the loop body although returns are id-guarded")
+
+    # ------------------------------------------------------------------ R4: a waiter never loses its own response
+    R.rule("R4", "a waiter never drops its own response: every path that takes a message off the shared stream and keeps waiting carries a test the waiter's own response cannot pass (other id, a method, a list)")
+    ids = {id_literal(st, _sendmsg.msg_terms(st, W.msg_term_prefix)[0]) for st, _n in W.out.ret if _sendmsg.msg_terms(st, W.msg_term_prefix)} - {None}
+    for why, about, others in skipped_messages(W, ids, R):
+        R.ob("R4", "a message taken off the shared stream is passed over only for a reason the waiter's own response cannot have", bool(why), f"{wrel}:{W.recv_assign.lineno}",
+             f"after `{ast.unparse(W.recv_assign)[:60]}` completed the waiter keeps waiting with " + (f"only {about} known about the message" if about else f"nothing tested on the message (path: {others})") + ": its own response, sent within the deadline, is consumed and never returned",
+             sample=f"R4 passed over because `{why[:70]}`")
 
     # ------------------------------------------------------------------ R3: the per-request routing table
     R.rule("R3", "the stdio client's per-request routing table is a map from request id to that request's stream: entries are inserted only by the registration call under the caller's id, looked up and removed by the router only under the id of the message it is routing, and otherwise only touched by the shutdown path — nothing else removes, closes or re-keys another request's entry")
